@@ -332,8 +332,8 @@ func streamArith(c *Ctx) {
 	maxN := uint64(1) << 12
 	maxLen := uint64(1) << 16
 	if c.thorough {
-		maxN = 1 << 20
-		maxLen = 1 << 24
+		maxN = 1 << 18
+		maxLen = 1 << 22
 	}
 	// single-argument helpers, every n up to maxLen (block digests)
 	for _, fn := range []string{"rup", "rup2", "rdown", "ispow", "minsq", "size"} {
